@@ -31,6 +31,10 @@ var slotDefs = []slotDef{
 	{"risky", "String", []*hx.Arg{strArg()}, "Risky"},
 	// a method whose Go name differs from the field name by more than the case of its first letter
 	{"htmlid", "String", nil, "HTMLID"},
+	// methods whose Go parameter is of a string kind but not the type the coerced argument has: a plain
+	// string for an enum (which arrives as a ggql.Symbol), an application string type for a String
+	{"tint", "String", []*hx.Arg{{Name: "c", Type: hx.Named("Color").NN()}}, "Tint"},
+	{"tag", "String", []*hx.Arg{{Name: "l", Type: hx.Named("String").NN()}}, "Tag"},
 	{"vals", "[V]", nil, "Vals"}, {"val", "V", nil, "Val"},
 }
 
